@@ -77,6 +77,23 @@ func structFieldStores(v ssa.Value) map[*types.Var]ssa.Value {
 	return out
 }
 
+// loadsFieldOf: v is a load of field fld of the very struct object obj (the registration reads the record).
+func loadsFieldOf(v, obj ssa.Value, fld *types.Var) bool {
+	u, ok := strip(v).(*ssa.UnOp)
+	if !ok || u.Op != token.MUL {
+		return false
+	}
+	fa, ok := u.X.(*ssa.FieldAddr)
+	if !ok || fieldOfAddr(fa) != fld {
+		return false
+	}
+	base := strip(obj)
+	if l, ok := base.(*ssa.UnOp); ok && l.Op == token.MUL {
+		base = l.X
+	}
+	return fa.X == base
+}
+
 // appendedElements: v is append(load F, e1, e2...) ; returns F and the appended element values.
 func appendedElements(v ssa.Value) (*types.Var, []ssa.Value, bool) {
 	call, ok := strip(v).(*ssa.Call)
@@ -133,10 +150,10 @@ func (p *Program) recordsOf(fn *ssa.Function, pattern, handler ssa.Value) []reco
 			for _, e := range elems {
 				rec := recordedPair{Field: f, Store: x}
 				for fld, val := range structFieldStores(e) {
-					if p.sameRegistered(val, pattern) {
+					if p.sameRegistered(val, pattern) || loadsFieldOf(pattern, e, fld) {
 						rec.Pattern = fld
 					}
-					if p.sameRegistered(val, handler) {
+					if p.sameRegistered(val, handler) || loadsFieldOf(handler, e, fld) {
 						rec.Handler = fld
 					}
 				}
